@@ -327,10 +327,16 @@ pub fn make_scenario(rng: &mut Rng, o: &ScOpts) -> Scenario {
             root_cluster: if fat32 { *rng.pick(&[2u32, 2, 5, 9]) } else { 0 },
             info: if !fat32 { InfoInit::Unknown } else if o.stale_info { match rng.below(4) { 0 => InfoInit::Unknown, 1 => InfoInit::Stale { free: 0, next: 0xFFFF_FFF0 }, 2 => InfoInit::Stale { free: rng.next() as u32, next: rng.below(70000) as u32 }, _ => InfoInit::Correct } } else { match rng.below(3) { 0 => InfoInit::Unknown, _ => InfoInit::Correct } },
             part_type: if fat32 { 0x0C } else { 0x06 },
-            label: *b"VERIF      ",
+            // a blank label in the boot sector makes `get_root_volume_label` fall back to the root directory
+            label: if rng.chance(1, 3) { *b"           " } else { *b"VERIF      " },
             use_total16: rng.chance(1, 2),
         };
-        let tree = sample_tree(rng, bpc as usize * 512, o.big_tree && v == 0 && !(o.small_root && !fat32), o.full_dir && v == 0);
+        let mut tree = sample_tree(rng, bpc as usize * 512, o.big_tree && v == 0 && !(o.small_root && !fat32), o.full_dir && v == 0);
+        // a volume-label entry (attribute 0x08) somewhere in the root: in most blank-label volumes and a few others
+        if rng.chance(if geom.label[0] == b' ' { 2 } else { 1 }, 3) {
+            let at = rng.below(tree.len() as u64 + 1) as usize;
+            tree.insert(at, Node::Label { name: *rng.pick(&[*b"ROOTLABEL  ", *b"L          ", *b"TRAIL  SP  "]) });
+        }
         let keep_free = o.keep_free.as_ref().map(|ks| *rng.pick(ks));
         let layout = mkfs::compute_layout(&geom);
         next_lba = layout.lba_start + layout.total_blocks + rng.below(9) as u32;
